@@ -6,7 +6,9 @@
 package retrylaw
 
 import (
+	"bytes"
 	"context"
+	"encoding/json"
 	"fmt"
 	"io"
 	"net/http"
@@ -37,9 +39,13 @@ const (
 
 var Names = []string{"success", "503", "400", "conn-error", "hang"}
 
+// JSONBody: the integration under test posts a JSON document (all four do).
+var JSONBody = true
+
 type Attempt struct {
 	At, Done time.Duration
 	Outcome  int
+	Body     []byte // what reached the endpoint (nil for a connection error: nothing is read from the request then)
 }
 
 // RT is the scripted transport. Success answers with SuccessCode / SuccessBody / SuccessType (what the integration
@@ -55,17 +61,23 @@ type RT struct {
 }
 
 func (s *RT) RoundTrip(req *http.Request) (*http.Response, error) {
-	if req.Body != nil {
-		io.Copy(io.Discard, req.Body)
-		req.Body.Close()
-	}
 	s.mu.Lock()
 	i := len(s.Att)
 	o := OK
 	if i < len(s.Seq) {
 		o = s.Seq[i]
 	}
-	s.Att = append(s.Att, Attempt{At: time.Since(s.Epoch), Outcome: o})
+	s.mu.Unlock()
+	// a connection that cannot be established never reads the request body; every other answer has received it
+	var reqBody []byte
+	if req.Body != nil {
+		if o != Conn {
+			reqBody, _ = io.ReadAll(req.Body)
+		}
+		req.Body.Close()
+	}
+	s.mu.Lock()
+	s.Att = append(s.Att, Attempt{At: time.Since(s.Epoch), Outcome: o, Body: reqBody})
 	s.mu.Unlock()
 	defer func() {
 		s.mu.Lock()
@@ -168,6 +180,23 @@ func Law(seq []int, att []Attempt, end time.Duration, err error, own, flush time
 	}
 	if len(att) == 0 {
 		return "no attempt at all"
+	}
+	// faithful payload: every attempt of one flush carries the same single document
+	var first []byte
+	for i, a := range att {
+		if a.Outcome == Conn {
+			continue
+		}
+		if first == nil {
+			first = a.Body
+			if JSONBody && !json.Valid(first) {
+				return fmt.Sprintf("attempt %d sent a body that is not one JSON document: %.200q", i, first)
+			}
+			continue
+		}
+		if !bytes.Equal(a.Body, first) {
+			return fmt.Sprintf("attempt %d sent a different body than the first attempt that got through (%d vs %d bytes): %.300q", i, len(a.Body), len(first), a.Body)
+		}
 	}
 	ok := att[len(att)-1].Outcome == OK
 	if ok != (err == nil) {
